@@ -61,6 +61,54 @@ def work_degenerate(chunk, st):
         st.sample({'arch': 'D2', 'gex_group': {'p': p, 'g': g}, 'status': res.status}, cap=14)
 
 
+# the content of a syntactically valid identification string: software names the tool recognises followed by version strings
+# that are not what its version parser expects (empty components, very long numbers, non-ASCII digits, signs, exponents)
+BANNER_PRODUCTS = ['OpenSSH_', 'OpenSSH-', 'dropbear_', 'libssh-', 'libssh_', 'tinyssh_', 'PuTTY_Release_', 'Frob_']
+BANNER_VERSIONS = ['8..2p1', '.79', '8.', '8', '..', '.', '', '1.2.3.4.5.6.7.8', '99999999999999999999999.1', '8.2p', '8.2p99999999999999999999', '-1.2', '+8.2', '1e5.2',
+                   '0x10.1', '8_2.1', '8.2 .1', '8.2-', '2020.81test', '2020.81test0', '0.0', '00008.0002', '8.\u0663', '8.\u00b2', '\u0668.2', '8.2p1 \u00e9', '%s', '{0}', '8.2\\n', '7.4p1 Debian-10+deb9u7 extra words',
+                   '8' * 300 + '.1', '1.' * 120 + '1']
+
+
+def banner_content_tasks():
+    out = []
+    for prod in BANNER_PRODUCTS:
+        for v in BANNER_VERSIONS:
+            for proto in ('2.0', '1.99'):
+                for role in ('server', 'client'):
+                    out.append(('banner', proto, prod, v, role))
+    return out
+
+
+def work_banner(chunk, st):
+    lists = dict(kex=['curve25519-sha256', 'diffie-hellman-group14-sha1'], key=['ssh-ed25519', 'ssh-rsa'], enc=['aes256-ctr', '3des-cbc'], mac=['hmac-sha2-256', 'hmac-md5'])
+    for _t, proto, prod, v, role in chunk:
+        banner = ('SSH-%s-%s%s' % (proto, prod, v)).encode('utf-8')
+        for fmt in ('text', 'json'):
+            opts = ['-n'] + (['-j'] if fmt == 'json' else [])
+            if role == 'server':
+                res = H.audit(peer.Server(banner=banner, host_keys=peer.standard_host_keys(lists['key']), **lists), opts=opts + ['--skip-rate-test'])
+            else:
+                res = H.client_audit(peer.Client(banner=banner, **lists), opts=opts)
+            st.execution(res.world, outcome=('banner', res.status, bool(res.hang)), root=('banner', proto, prod, v, role, fmt), nontrivial=('banner', proto, prod, v, role, fmt))
+            d = {'banner': banner.decode('utf-8'), 'role': role, 'fmt': fmt, 'status': res.status, 'stdout_tail': res.stdout[-300:], 'stderr_tail': res.stderr[-300:]}
+            kind = 'recognised' if prod in BANNER_PRODUCTS[:5] else 'other'
+            if res.hang or res.exc or res.status not in (0, 1, 2, 3):
+                st.violation('banner-content:crash-or-hang:%s:%s' % (kind, F._trace_site(res.stdout + res.stderr)), dict(d, hang=res.hang, exc=res.exc))
+                continue
+            if fmt == 'text':
+                shown = report.TextReport(res.stdout)
+                complete = all(shown.names(c) == lists[c] for c in lists)
+            else:
+                try:
+                    doc = json.loads(res.stdout)
+                    complete = all([e['algorithm'] for e in doc.get(c, [])] == lists[c] for c in lists)
+                except ValueError:
+                    complete = False
+            if not complete or res.status != 3:
+                st.violation('banner-content:wellformed-handshake-rejected:%s' % kind, d)
+    st.sample({'banner_content': chunk[0][2] + chunk[0][3][:40], 'role': chunk[0][4]}, cap=22)
+
+
 # environment answers around the listening socket of a client audit
 def check_client_environment(st):
     import socket as _s
@@ -120,6 +168,7 @@ def run(tier, seed):
         par.pmap(work, all_tasks, extra=(False,), stats=st)
     par.pmap(work_degenerate, degenerate_gex_tasks(), stats=st, procs=1)
     check_client_environment(st)
+    par.pmap(work_banner, banner_content_tasks(), stats=st, chunk=8)
     # replay determinism: the same plan must give the same observation when executed again (and again after other executions)
     for arch, short, plan in H.pick(all_tasks, seed + 7, 60):
         sc = F.scenario(arch, short)
@@ -155,7 +204,9 @@ def run(tier, seed):
              'D2 group exchange as probe kex, E/E1 SSH-1, F SSH-1.99, G client role): cooperative run, then every (connection, message, fault) '
              'of the menu (truncate+close / truncate+stall at byte offsets, reset, garbage, every length field x5 values, wrong type, '
              'debug x1..3, duplicate, extra lines, split at every offset, 1-byte segments, refuse/timeout at connect); '
-             'thorough adds all pairs with a second message-level fault on a later connection; non-trivial = at least one deviation',
+             'thorough adds all pairs with a second message-level fault on a later connection; degenerate GEX groups; bind failures of a client audit; '
+             '%d identification strings (recognised and other software names x unexpected version strings x SSH-2.0/1.99 x both roles x text/JSON); '
+             'non-trivial = at least one deviation' % len(banner_content_tasks()),
         assumptions=['environment model: mc/vnet.py, mc/peer.py (validated against real loopback TCP by mc/realnet.py when traces_validated>0)',
                      'random exponent pinned to the low end of its range; ValueError on an empty range is preserved'],
         exhaustive=True, traces_validated=validated, extra={'deviation_bound_completed': bound_done,
